@@ -126,26 +126,28 @@ class SourceJoin(MVPN):
 
         # Validate source IP length (offset +2 for header)
         cursor = 14  # 2 (header) + 8 (RD) + 4 (Source AS)
-        sourceiplen = int(packed[cursor] / 8)
+        # the lengths are in bits: 33 is not another way to write 32, the route would differ from the
+        # 32 bit one in its octets (hash, index) and in nothing else
+        sourceiplen = packed[cursor] / 8
         cursor += 1
         if sourceiplen != IPv4.BYTES and sourceiplen != IPv6.BYTES:
             raise Notify(
                 3,
                 5,
-                f'Invalid C-Multicast Route length ({sourceiplen * 8} bits). Expected 32 bits (IPv4) or 128 bits (IPv6).',
+                f'Invalid C-Multicast Route length ({int(sourceiplen * 8)} bits). Expected 32 bits (IPv4) or 128 bits (IPv6).',
             )
-        cursor += sourceiplen
+        cursor += int(sourceiplen)
 
         # Validate group IP length
         if cursor >= len(packed):
             # the total length passed the check above but the source took what the group needed
             raise Notify(3, 5, 'the source and group lengths do not add up to the length of the route')
-        groupiplen = int(packed[cursor] / 8)
+        groupiplen = packed[cursor] / 8
         if groupiplen != IPv4.BYTES and groupiplen != IPv6.BYTES:
             raise Notify(
                 3,
                 5,
-                f'Invalid C-Multicast Route length ({groupiplen * 8} bits). Expected 32 bits (IPv4) or 128 bits (IPv6).',
+                f'Invalid C-Multicast Route length ({int(groupiplen * 8)} bits). Expected 32 bits (IPv4) or 128 bits (IPv6).',
             )
 
         return cls(packed, afi)
